@@ -14,6 +14,9 @@
     * validate_reversed_subhourly_tail   rotation point `moy < end_moy + 60`
     * validate_timestep_all_datetimes    coarsest valid timestep fitting every datetime
     * mph_sort_full_key                  monthly-per-hour sort key is the whole (month, hour, minute)
+    * monthly_keeps_timestep_leap        Monthly / MonthlyPerHour validation keep header timestep + leap flag
+    * mph_fits_timestep                  MonthlyPerHour validation repairs a timestep that does not fit the minutes
+    * monthly_wrapping_same_month        Monthly / MonthlyPerHour: wrapping header inside one month -> annual
 
   Conventions: an hourly datum is `(moy, value)`; all `DateTime`s of one collection carry the
   same leap flag `dl` (which may differ from the header's).  Values that are only moved are a
@@ -195,8 +198,8 @@ def validateDaily {α : Type} (ap : AP) (data : List (Nat × α)) : Except VErr 
   | _, _ => .error .assert
 
 /-- `MonthlyCollection.validate_analysis_period` (repaired); data = (month, value).  The new
-    period is `AnalysisPeriod(st_month=.., end_month=..)`: day, hours, timestep and leap flag of
-    the header are dropped (as in the code). -/
+    period is `AnalysisPeriod(st_month=.., end_month=.., timestep, is_leap_year)`: days and hours of
+    the header are dropped (as in the code); timestep and leap flag are kept (repaired). -/
 def validateMonthly {α : Type} (ap : AP) (data : List (Nat × α)) : Except VErr (Validated (Nat × α)) :=
   let sorted := sortByKey (fun p : Nat × α => p.1) data
   match sorted.head?, sorted.getLast? with
@@ -205,14 +208,14 @@ def validateMonthly {α : Type} (ap : AP) (data : List (Nat × α)) : Except VEr
     let stM := if fwd ∧ first.1 < ap.st_month then first.1 else ap.st_month
     let endM := if fwd ∧ last.1 > ap.end_month then last.1 else ap.end_month
     let ro := reorder ap.isReversed (fun p : Nat × α => decide (p.1 ≤ ap.end_month))
-      (fun f : Nat × α => decide (f.1 > ap.end_month ∧ f.1 < ap.st_month)) sorted
+      (fun f : Nat × α => decide (ap.st_month = ap.end_month ∨ (f.1 > ap.end_month ∧ f.1 < ap.st_month))) sorted
     let out := ro.1
     let gap := ro.2
     let stM := if gap then 1 else stM
     let endM := if gap then 12 else endM
     if hasAdjDup (out.map fun p => p.1) then .error .assert
     else
-      match liftAP (AP.mkOpt? (some stM) none none (some endM) none none none false) with
+      match liftAP (AP.mkOpt? (some stM) none none (some endM) none none (some ap.timestep) ap.leap) with
       | .error e => .error e
       | .ok nap => .ok ⟨nap, out⟩
   | _, _ => .error .assert
@@ -225,8 +228,9 @@ abbrev MPH := Nat × Nat × Nat
 def mphKey (k : MPH) : Nat := k.1 * 10000 + k.2.1 * 100 + k.2.2
 
 /-- `MonthlyPerHourCollection.validate_analysis_period` (repaired); data = ((month, hour, minute),
-    value).  New period `AnalysisPeriod(st_month, st_hour, end_month, end_hour)` (timestep and leap
-    flag dropped, as in the code). -/
+    value).  New period `AnalysisPeriod(st_month, st_hour, end_month, end_hour, timestep, leap)`:
+    the leap flag is the header's, the timestep the header's unless a minute of a key is off its
+    grid – then the coarsest valid timestep that fits every minute (both repaired). -/
 def validateMPH {α : Type} (ap : AP) (data : List (MPH × α)) : Except VErr (Validated (MPH × α)) :=
   let sorted := sortByKey (fun p : MPH × α => mphKey p.1) data
   match sorted.head?, sorted.getLast? with
@@ -235,7 +239,7 @@ def validateMPH {α : Type} (ap : AP) (data : List (MPH × α)) : Except VErr (V
     let stM := if fwd ∧ first.1.1 < ap.st_month then first.1.1 else ap.st_month
     let endM := if fwd ∧ last.1.1 > ap.end_month then last.1.1 else ap.end_month
     let ro := reorder ap.isReversed (fun p : MPH × α => decide (p.1.1 ≤ ap.end_month ∧ p.1.2.1 ≤ ap.end_hour))
-      (fun f : MPH × α => decide (f.1.1 > ap.end_month ∧ f.1.1 < ap.st_month)) sorted
+      (fun f : MPH × α => decide (ap.st_month = ap.end_month ∨ (f.1.1 > ap.end_month ∧ f.1.1 < ap.st_month))) sorted
     let out := ro.1
     let gap := ro.2
     let stM := if gap then 1 else stM
@@ -245,7 +249,8 @@ def validateMPH {α : Type} (ap : AP) (data : List (MPH × α)) : Except VErr (V
       let hours := out.map fun p => p.1.2.1
       let stH := if ap.isAnnual = false ∧ ap.st_hour ≠ 0 then minHour ap.st_hour hours else ap.st_hour
       let endH := if ap.isAnnual = false ∧ ap.end_hour ≠ 23 then maxHour ap.end_hour hours else ap.end_hour
-      match liftAP (AP.mkOpt? (some stM) none (some stH) (some endM) none (some endH) none false) with
+      let ts := fitTimestep ap.timestep (out.map fun p => p.1.2.2)
+      match liftAP (AP.mkOpt? (some stM) none (some stH) (some endM) none (some endH) (some ts) ap.leap) with
       | .error e => .error e
       | .ok nap => .ok ⟨nap, out⟩
   | _, _ => .error .assert
